@@ -50,13 +50,15 @@ def rules(model: Model, tier: str) -> List[RuleResult]:
     M = RuleResult(PROP, "SUB-M", "every alias of a unique parameter receives the new tensor; nothing is skipped", min_instances=3)
     _subst.unique_key_identity(model, K)
     _subst.unique_fill(model, M)
+    SA = RuleResult(PROP, "SUB-A", "the pure function's record of the installed tensors never escapes (accessors return copies)", min_instances=3)
+    _subst.no_escape_of_current_params(model, SA)
     F9 = RuleResult(PROP, "C09-F", "every backward makes one fresh, graph-connected copy per parameter slot (list, not an identity-keyed mapping)", min_instances=7)
     for name in FUNCTIONALS:
         ac.ac9_connected_copies(ac.get_fncls(model, name), F9)
     from .c16 import _one_context
     X = RuleResult(PROP, "C09-X", "at most one pure function's useobjparams context is open at a time (methods of one object would overwrite each other's installed tensors)", min_instances=7)
     _one_context(model, X, whole_package=True)
-    return [R6, S, D, U, I, G, N, K, M, X, F9]
+    return [R6, S, D, U, I, G, N, K, M, X, F9, SA]
 
 
 # ------------------------------------------------------------------------------------------------- S
